@@ -55,7 +55,9 @@ func (s *scanLoop) norm(str string) string {
 func replaceWord(s, w, by string) string {
 	var out strings.Builder
 	i := 0
-	isId := func(b byte) bool { return b == '_' || (b >= '0' && b <= '9') || (b >= 'a' && b <= 'z') || (b >= 'A' && b <= 'Z') || b >= 0x80 }
+	isId := func(b byte) bool {
+		return b == '_' || (b >= '0' && b <= '9') || (b >= 'a' && b <= 'z') || (b >= 'A' && b <= 'Z') || b >= 0x80
+	}
 	for i < len(s) {
 		j := strings.Index(s[i:], w)
 		if j < 0 {
@@ -131,10 +133,12 @@ func (c *Ctx) scanLoop() *scanLoop {
 		}
 		if p, ok := v.(*ssa.Phi); ok {
 			// follow to the header phi
-			for p.Block() != s.header {
+			seenPhi := map[*ssa.Phi]bool{}
+			for p.Block() != s.header && !seenPhi[p] {
+				seenPhi[p] = true
 				var next *ssa.Phi
 				for _, e := range p.Edges {
-					if q, ok := e.(*ssa.Phi); ok {
+					if q, ok := e.(*ssa.Phi); ok && !seenPhi[q] {
 						next = q
 					}
 				}
@@ -324,6 +328,7 @@ func ruleScanNonInterference(c *Ctx, rule string) {
 		return
 	}
 	taint := dataDeps(s.fn, map[ssa.Value]bool{s.skip: true, s.take: true, s.last: true})
+	taintAll := dataDeps(s.fn, map[ssa.Value]bool{s.all: true, s.skip: true, s.take: true, s.last: true})
 	r.Stats["values_depending_on_skip_take_last"] = len(taint)
 	type sink struct {
 		name string
@@ -342,12 +347,71 @@ func ruleScanNonInterference(c *Ctx, rule string) {
 		sinks = append(sinks, sink{fmt.Sprintf("CreateState argument %d (%s)", i+3, exprStr(a)), a, s.create.Pos()})
 	}
 	sinks = append(sinks, sink{"MakeMatch argument (match number)", s.makeMatch.Call.Args[1], s.makeMatch.Pos()})
+	// whatever findMatches itself puts into the VM state, or hands to a function together with the VM state
+	stT := c.NamedType("engine", "SearchEngineState")
+	isState := func(v ssa.Value) bool {
+		p, ok := v.Type().(*types.Pointer)
+		return ok && stT != nil && types.Identical(p.Elem(), stT)
+	}
+	type csink struct {
+		name  string
+		block *ssa.BasicBlock
+		pos   token.Pos
+	}
+	var csinks []csink
+	nput := 0
+	instrsOf(s.fn, func(in ssa.Instruction) {
+		if !s.loop[in.Block()] {
+			return
+		}
+		switch x := in.(type) {
+		case *ssa.Store:
+			if fa, ok := x.Addr.(*ssa.FieldAddr); ok && isState(fa.X) {
+				nput++
+				name := "value stored into the VM state's field " + fieldName(stT, fa.Field)
+				sinks = append(sinks, sink{name, x.Val, x.Pos()})
+				csinks = append(csinks, csink{name, x.Block(), x.Pos()})
+			}
+		case *ssa.Call:
+			if x == s.create || x == s.makeMatch {
+				return
+			}
+			hasState := false
+			for _, a := range x.Call.Args {
+				if isState(a) {
+					hasState = true
+				}
+			}
+			if !hasState {
+				return
+			}
+			for i, a := range x.Call.Args {
+				if isState(a) {
+					continue
+				}
+				if _, isConst := a.(*ssa.Const); isConst {
+					continue
+				}
+				nput++
+				sinks = append(sinks, sink{fmt.Sprintf("argument %d of %s (called with the VM state)", i+1, callName(&x.Call)), a, x.Pos()})
+			}
+		}
+	})
+	r.Stats["values_put_into_the_vm_state_by_findMatches"] = nput
+	for _, cs := range csinks {
+		for _, l := range s.iterConds(cs.block) {
+			if s.loop[l.If.Block()] && !s.exitBranch(l.If) && taint[l.Cond] {
+				ob := r.Ob(rule, "findMatches: "+cs.name+" is not written under a condition on skip/take/last", c.pos(cs.pos))
+				ob.Bad(fmt.Sprintf("the store is control-dependent on `%s`: the matching attempt itself would depend on the amount clause", exprStr(l.Cond)))
+			}
+		}
+	}
 	for _, sk := range sinks {
 		ob := r.Ob(rule, "findMatches: "+sk.name+" does not depend on skip/take/last", c.pos(sk.pos))
 		conds, data := s.influences(sk.v)
 		var bad []string
 		for _, d := range data {
-			if taint[d] {
+			if taintAll[d] {
 				if _, isParam := d.(*ssa.Parameter); isParam {
 					bad = append(bad, "data-dependent on parameter "+d.Name())
 				}
@@ -712,8 +776,29 @@ func (c *Ctx) returnsFresh(fn *ssa.Function, depth int) (bool, string) {
 func (c *Ctx) freshValue(v ssa.Value, depth int) (bool, string) {
 	switch x := v.(type) {
 	case *ssa.Alloc:
-		// composite literal: its reference-typed fields must be fresh too (checked by the caller per field)
+		// composite literal: a slice-typed field must not be a view of somebody else's backing array (other reference fields are
+		// checked by the caller per field)
+		if st, isStruct := deref(x.Type()).Underlying().(*types.Struct); isStruct && depth < 6 {
+			for _, ref := range *x.Referrers() {
+				fa, ok := ref.(*ssa.FieldAddr)
+				if !ok {
+					continue
+				}
+				if _, isSlice := st.Field(fa.Field).Type().Underlying().(*types.Slice); !isSlice {
+					continue
+				}
+				for _, r2 := range *fa.Referrers() {
+					if s, ok := r2.(*ssa.Store); ok && s.Addr == ssa.Value(fa) {
+						if f, w := c.freshValue(s.Val, depth+1); !f {
+							return false, "field " + st.Field(fa.Field).Name() + ": " + w
+						}
+					}
+				}
+			}
+		}
 		return true, ""
+	case *ssa.Slice:
+		return false, "a slice of " + exprStr(x.X) + " (shares its backing array)"
 	case *ssa.MakeMap, *ssa.MakeSlice:
 		return true, ""
 	case *ssa.Const:
